@@ -145,6 +145,22 @@ impl<'a> Machine<'a> {
                 .iter()
                 .map(|e| out[e.node][e.port].clone())
                 .collect();
+            // products are bounded before they are materialised
+            if matches!(
+                node.op,
+                Op::Join { .. } | Op::CrossJoin { .. } | Op::JoinMultisetHalf { .. } | Op::JoinFused { .. } | Op::CrossSingleton { .. }
+            ) {
+                let (la, lb) = self.state_sizes(i);
+                if (ins[0].len() + la) * (ins[1].len() + lb).max(1) > 4 * MAX_LEN {
+                    self.bad("join product too large");
+                }
+            }
+            if self.invalid.is_some() {
+                // leave the tick: the case is outside the envelope and will be dropped
+                self.tick += 1;
+                self.last_out = out;
+                return vec![];
+            }
             let res = self.eval(i, &node.op, ins, inputs, &out);
             for port in &res {
                 if port.len() > MAX_LEN {
@@ -177,6 +193,14 @@ impl<'a> Machine<'a> {
         self.last_out = out;
         sinks.sort_by_key(|s| s.0);
         sinks
+    }
+
+    fn state_sizes(&self, i: usize) -> (usize, usize) {
+        match &self.st[i] {
+            St::Two(l, r) => (l.len(), r.len()),
+            St::FusedL(la, ra, lm, rm) => (la.len() + lm.len(), ra.len() + rm.len()),
+            _ => (0, 0),
+        }
     }
 
     fn end_tick(&mut self, i: usize) {
@@ -507,6 +531,12 @@ impl<'a> Machine<'a> {
                     fold_step(f, &mut acc, x);
                 }
                 self.st[i] = St::Acc(acc.clone());
+                if !*replay && ins[0].is_empty() && self.tick == 0 {
+                    // Whether the initial value is emitted once in the very first tick when no
+                    // input has arrived yet is not covered by "does not replay the accumulated
+                    // value on ticks where there is no new input": not modelled.
+                    self.bad("fold_no_replay without input in the first tick: not documented");
+                }
                 if *replay || !ins[0].is_empty() {
                     one(vec![acc])
                 } else {
@@ -1016,6 +1046,9 @@ pub fn run_script(prog: &Prog, script: &Script) -> Expected {
                 loop {
                     one_tick(&mut m, &mut pending, &mut ex);
                     k += 1;
+                    if m.invalid.is_some() {
+                        break;
+                    }
                     if !m.pending().0 {
                         break;
                     }
